@@ -13,10 +13,21 @@ PROP = dict(
          "repo's protobuf types (presence pattern x boundary values x random; 1-4 messages, 1-3 states, 0-5 ids, all 29 "
          "command fields, text strings incl. bytes >= 0x80). Exhaustive part (every run): all state 0-7 x output x blink "
          "0-15 (256), all interp 0-15 x value 0-4095 (65 536), 32 index colours (HWCc# and text field), all 256 values of "
-         "each RGB channel (HWCc# and text field), every image length 1..700, every single text field alone. EQ = Lean "
-         "model encIn equals the implementation's strings; H1 = Spec.readInbound(implementation lines) equals "
-         "effectsOfIn per message up to permutation of commuting effects (records outside InDomainIn are tagged "
-         "B:outdom and only checked for totality / one-line strings). non-trivial = at least one line produced; "
+         "each RGB channel (HWCc# and text field), every image length 1..700, every single text field alone; plus a fixed "
+         "table of out-of-range messages (states -1/6/7/8/13/int32 bounds x blink masks >= 16, interpretations / values "
+         "beyond 4/12 bits, colour indices beyond 5 bits and negative, both colour alternatives set, empty colour, "
+         "out-of-range / negative formatting, icons, pair mode, scale type, fonts, sizes, padding, spacing, second line "
+         "without pair mode, image types outside 0-2, images without data, negative enum command arguments, flow / "
+         "register kinds outside their enums), and every fourth random record is drawn with out-of-range enums and "
+         "bit fields (strings stay free of '|' and LF). EQ = Lean model encIn equals the implementation's strings; "
+         "H1 = Spec.readInbound(implementation lines) EQUALS effectsOfIn per message as a list (exact order: nothing on "
+         "the inbound side iterates over a Go map, no permutation is tolerated) for records in InDomainIn; for records "
+         "outside InDomainIn but inside Spec.inWireDomain (tag B:wiredom) the same exact comparison against the effects "
+         "of Spec.maskMsg (theorem enc_sound_masked); records outside both (tag B:outdom: '|' / LF in strings, "
+         "Processors) are only checked for totality / one-line strings. Records ein.rt (one per random message list) = "
+         "RawPanelASCIIstringsToInboundMessages(InboundMessagesToRawPanelASCIIstrings(msgs)): EQ = decIn(encIn msgs) of the "
+         "two Lean models, H1 = the returned messages have exactly the effects of the submitted ones (theorem "
+         "C02.roundtrip_in; records outside InDomainIn / roundtripGuard tagged B:rt-outdom). non-trivial = at least one line produced; "
          "distinct = distinct record text; branch tags = line families present in the record",
     trusted_base=["encoding/json (SetNetworkConfig text: supplied by the harness, opaque; Processors JSON: outside the domain)",
                   "proto.Equal(x, &T{}) modelled as structural equality with the all-default message (harness decodes with DiscardUnknown)",
@@ -32,6 +43,16 @@ CLAIM = dict(
          "value<4096, index<32, any RGB, all 21 text fields incl. fonts/sizes/padding/colours, images of 1..2^32-1 bytes in "
          "the 3 formats with/without X/Y, all 29 command fields, all register kinds), Spec.readInbound (encIn ms) = "
          "ms.flatMap effectsOfIn — sequence equality, hence per-id replication and submission order (enc_sound_append). "
+         "C01.enc_sound_masked (same strength, NO enum / bit-field range hypothesis): on Spec.inWireDomain (ids, sizes and "
+         "verbatim-printed integers inside their Go types, strings free of '|' and LF, register ids in their alphabet, no "
+         "Processors, the SetNetworkConfig oracle law) the reader reads exactly the effects of Spec.maskMsg m — every "
+         "packed field reduced to the low bits its width carries (two's complement), RGB wins when both colour "
+         "alternatives are set (both_colours_rgb_wins), a second line / value without pair mode gives pair mode 1 "
+         "(pair_mode_inferred), negative formatting / pair mode count as 0, a scale without positive type is none, an "
+         "image without data and a negative SleepMode / SleepScreenSaver / LoadCPU argument are not carried; "
+         "wire_domain_contains_domain + mask_invisible_on_domain: the two theorems agree on InDomainIn; "
+         "mode_pack_masked, ext_pack_masked, colIndex_pack_masked, text_line_masked are the kernels without range. "
+         "The SetNetworkConfig clause is exercised with a concrete non-trivial oracle (witnessOracle) in examples. "
          "Kernels proved for all values by arithmetic: mode_pack, ext_pack, colIndex_pack, colRGB_pack (every 32-bit "
          "channel value -> 2-bit level), textColor_pack_*, text_fields (any field list without '|'), chunk_len_le_170, "
          "chunk_count, chunks_concat, b64_roundtrip; enc_ok (no panic on any input). Resting on correspondence, not "
@@ -40,6 +61,6 @@ CLAIM = dict(
     note=TB + "The reference reader is itself the specification of the ASCII grammar (Appendix B); a message text/graphics "
          "sub-message equal to the all-default message, and image data of length 0, have no ASCII representation and "
          "carry no effect (excluded from the domain, as the encoder deliberately emits nothing).",
-    technique="Lean 4 proof (bit-field arithmetic via omega, list induction over ids/states/messages/chunks, "
+    technique="Lean 4 proof (bit-field arithmetic via omega incl. two's-complement masks, list induction over ids/states/messages/chunks, "
               "split/join round trip) + model/implementation correspondence with exhaustive kernel sweeps",
 )
